@@ -377,6 +377,27 @@ def run_case(sh, s, d, case, script=None):
                         open(fpath, 'wb').write(orig)
                         return None
                 open(fpath, 'wb').write(orig)
+        # a file of an *older* chain that the repository still holds
+        older = [b for b in backups if b['held'] and b not in chain and os.path.exists(os.path.join(repo, b['file']))]
+        if older:
+            b = older[0]
+            fpath = os.path.join(repo, b['file'])
+            orig = open(fpath, 'rb').read()
+            if orig:
+                pbyte = rnd.randrange(len(orig))
+                open(fpath, 'wb').write(orig[:pbyte] + bytes([orig[pbyte] ^ 0x55]) + orig[pbyte + 1:])
+                opt = R.parseargs(['-V', '-r', repo])
+                opt.test_now = tick(now, 5)
+                sh.count('verify_with_damage_in_an_older_chain')
+                try:
+                    quiet(R.do_verify, opt)
+                    failed = False
+                except Exception:
+                    failed = True
+                open(fpath, 'wb').write(orig)
+                if not failed:
+                    sh.violation('c18:verify-passes-on-altered-file-of-an-older-backup-chain', dict(wit, file=b['file'], kind=b['kind']), case)
+                    return None
     nincr = sum(1 for b in backups if b['kind'] == 'incr')
     return (digest(trace, s) if nincr and len(answered) >= 2 else None, {'seed': s, 'trace': trace})
 
